@@ -4,4 +4,6 @@ CONSTANT NSample = 0
 CONSTANT NRand = 50
 CONSTANT NStack = 50
 CONSTANT NMut = 50
+CONSTANT NCtl = 2
+CONSTANT NSp = 50
 CHECK_DEADLOCK FALSE
